@@ -17,4 +17,9 @@ CHECK = {'level': 'exploration',
  'engines': [_E('pbt/C01_parse.cpp', 120, 4000), _E('pbt/C02_write.cpp', 500, 6000), _E('pbt/C13_write11.cpp', 500, 6000), _E('pbt/C03_struct.cpp', 400, 10000),
              _E('pbt/C04_history.cpp', 400, 8000), _E('pbt/C05_failed.cpp', 300, 8000), _E('pbt/C06_pktitr.cpp', 500, 10000), _E('pbt/C07_values.cpp', 1500, 20000),
              _E('pbt/C08_eol.cpp', 500, 8000), _E('pbt/C09_names.cpp', 200, 3000, 1, 2), _E('pbt/C10_numbers.cpp', 8000, 200000, 1, 2), _E('pbt/C14_walk.cpp', 400, 10000),
-             _E('pbt/C15_parsecb.cpp', 300, 10000), _E('pbt/C18_analyze.cpp', 300, 10000, 1, 2), _E('pbt/C19_valueops.cpp', 2000, 20000, 1, 2)]}
+             _E('pbt/C15_parsecb.cpp', 300, 10000), _E('pbt/C18_analyze.cpp', 300, 10000, 1, 2), _E('pbt/C19_valueops.cpp', 2000, 20000, 1, 2)],
+ # uses of uninitialised memory are invisible to ASan/UBSan: a sample of the generated cases of these engines (spread over each
+ # worker-0 run) and the committed cases under replay/C16/vg/ are re-run through an uninstrumented build under valgrind memcheck
+ 'valgrind': {'engines': ['C01_parse.cpp', 'C02_write.cpp', 'C03_struct.cpp', 'C04_history.cpp', 'C06_pktitr.cpp', 'C07_values.cpp', 'C08_eol.cpp',
+                          'C14_walk.cpp', 'C15_parsecb.cpp', 'C19_valueops.cpp'],
+              'quick': {'keep': 5}, 'thorough': {'keep': 40}}}
